@@ -1088,6 +1088,34 @@ theorem bad_incremental_not_history_free :
         [.read, .edit 0 3 (.fin 7), .read, .edit 0 3 (.fin 2), .read] = [[.fin 0], [.fin 7], [.fin 2]] := by
   decide +kernel
 
+/-- **Over exact numbers the incremental update is invisible**: for any commutative ring, any `ratio`
+and any state satisfying the cache invariant, `readIncremental` returns exactly `IF · actuators` —
+what `read` returns.  So no model over `ℚ` alone, and no history of values on which floating point
+is exact, can tell the seeded code from the original; the counterexample above needs the
+non-number, the harness needs NaN / inf or values many orders of magnitude apart. -/
+theorem bad_incremental_exact_over_rings {R : Type} [CommRing R] [DecidableEq R] (ratio : Nat)
+    (m : Mirror R) (h : Inv m) :
+    (readIncremental ratio m).2 = matvec m.infl (acts m) ∧ (readIncremental ratio m).2 = (read m).2 := by
+  have key : (readIncremental ratio m).2 = matvec m.infl (acts m) := by
+    unfold readIncremental
+    cases hc : m.cached with
+    | none => simp only []; rw [handCopy_snd, surface_recompute]
+    | some c =>
+      simp only []
+      by_cases h1 : c = acts m
+      · rw [if_pos h1, handCopy_snd, h.cache c hc, h1]
+      · rw [if_neg h1]
+        by_cases h2 : c.length = (acts m).length ∧ nchanged (acts m) c * ratio ≤ c.length
+        · rw [if_pos h2, handCopy_snd]
+          show (m.sheap ++ [_]).getD m.sheap.length [] = _
+          rw [getD_append_length, h.cache c hc]
+          exact matvec_sub_add m.infl (acts m) c h2.1
+        · rw [if_neg h2, handCopy_snd, surface_recompute]
+  exact ⟨key, by rw [key, read_snd m h]⟩
+
+/-- the hypothesis is satisfiable: every reachable state satisfies the invariant (`mirror_cache_invariant`) -/
+example : Inv (run (init [[(1 : Int), 2]] 2) [.assign [3, 4], .read]).1 := mirror_cache_invariant _ _ _
+
 end Bad
 
 /-! ### The two classic broken caches are really broken -/
